@@ -138,12 +138,16 @@ pub fn finish(prop: &str, tier: &str, seed: i64, jobs: &[Box<dyn JobT>], outcome
                     let same = t1 == t2 && f1.len() == f2.len();
                     let name = format!("{}-{}-{:016x}.json", o.system, c.kind, fnv(&format!("{}{}{}", o.label, c.kind, c.core_key)));
                     let path = replay_dir.join(&name);
+                    let rust = f1.iter().find(|f| f.kind == c.kind).and_then(|f| jobs[ji].rust_test(&c.core, f.mask, &f.kind, &f.detail));
+                    if let Some(code) = &rust {
+                        let _ = std::fs::write(replay_dir.join(name.replace(".json", ".rs")), code);
+                    }
                     let rec = json!({
                         "property": prop, "tier": tier, "job": o.label, "system": o.system, "kind": c.kind,
                         "core_key": c.core_key, "core": abs_to_json(&c.core), "core_text": c.core_text,
                         "example_history": abs_to_json(&c.example.hist), "example_text": c.example_text,
                         "example_detail": c.example.detail, "failing_histories_with_this_core": c.histories,
-                        "replay_of_core": t1, "replay_failure_details": f1.iter().map(|f| format!("{}: {}", f.kind, f.detail)).collect::<Vec<_>>(), "deterministic_replay": same,
+                        "standalone_rust_test": rust.as_ref().map(|_| name.replace(".json", ".rs")), "replay_of_core": t1, "replay_failure_details": f1.iter().map(|f| format!("{}: {}", f.kind, f.detail)).collect::<Vec<_>>(), "deterministic_replay": same,
                     });
                     let _ = std::fs::write(&path, serde_json::to_string_pretty(&rec).unwrap());
                     if !same {
